@@ -454,3 +454,32 @@ def prefilter_judges_child_rule(ctx, rule):
         ck.expect(ok, rule, ps.qual, 'the filters are asked about the link being queued (%s)' % '/'.join(sorted(queued)),
                   'the pre-filter judges `%s`, not the URL of the scraped link: every link of an accepted page passes, and the first '
                   'reference of a URL (hyperlink or page requisite, in set order) decides how it is stored' % norm_text(a)[:60], ps.loc(c))
+
+
+def proxy_failure_closes_rule(ctx, rule):
+    """HTTPProxyConnectionPool.acquire_proxy sets up the CONNECT tunnel and TLS only on a connection that is closed.  When the
+    set-up fails, the handler that gives the connection back must close it first: an open connection marked `proxied` without a
+    tunnel is taken for a finished tunnel by the next client, which writes its https request (credentials, cookies) to the proxy in
+    clear text (C16), and a connection in an unknown protocol state is shared (C12)."""
+    import ast
+    from .. import util as U
+    from ..index import norm_text, walk_no_nested, AnalysisError
+    repo, ck = ctx.repo, ctx.check
+    ap = repo.func('wpull.proxy.client:HTTPProxyConnectionPool.acquire_proxy')
+    n = 0
+    for t in walk_no_nested(ap.node):
+        if not isinstance(t, ast.Try):
+            continue
+        for h in t.handlers:
+            rel = [c for c in U.calls(h) if U.attr_name(c) in ('release', 'no_wait_release') and c.args]
+            if not rel:
+                continue
+            n += 1
+            nm = norm_text(rel[0].args[0])
+            closes = [c for c in U.calls(h) if U.attr_name(c) == 'close' and norm_text(c.func.value) == nm]
+            ok = bool(closes) and min(c.lineno for c in closes) <= min(c.lineno for c in rel)
+            ck.expect(ok, rule, ap.qual, '%s is closed before it is given back after a failed tunnel / TLS set-up' % nm,
+                      'the failure handler returns the connection to the pool open: the next request for that host finds it "connected", '
+                      'skips CONNECT and start_tls and is written to the proxy as it is - an https request with its credentials in clear text', ap.loc(h))
+    if n == 0:
+        raise AnalysisError('acquire_proxy: no failure handler that gives the connection back (C12-D8 c)')
